@@ -604,9 +604,13 @@ def r_state(A, ctx, scope, rule="R-STATE"):
     # (iv) globals / caches
     mutable_globals = {}
     for mod in prog.modules.values():
-        for k, v in mod.consts.items():
-            if isinstance(v, (ast.List, ast.Dict, ast.Set)) and k != "__all__":
-                mutable_globals[(mod.name, k)] = v
+        for st in mod.tree.body:
+            if isinstance(st, ast.Assign) and len(st.targets) == 1 and isinstance(st.targets[0], ast.Name):
+                k, v = st.targets[0].id, st.value
+                ctor = isinstance(v, ast.Call) and ast.unparse(v.func).split(".")[-1] in (
+                    "dict", "list", "set", "OrderedDict", "defaultdict", "WeakKeyDictionary", "WeakValueDictionary")
+                if (isinstance(v, (ast.List, ast.Dict, ast.Set)) or ctor) and k != "__all__":
+                    mutable_globals[(mod.name, k)] = v
     for f in prog.all_functions():
         for st in ast.walk(f.node):
             if isinstance(st, (ast.Global, ast.Nonlocal)):
@@ -619,6 +623,20 @@ def r_state(A, ctx, scope, rule="R-STATE"):
                 n += 1
                 ctx.ob(rule, f"{f.fq}::module-container::{st.func.value.id}", False,
                        what="module-level container mutated at run time", loc=loc(f, st))
+            if isinstance(st, (ast.Assign, ast.AugAssign, ast.Delete)):
+                tg = st.targets if isinstance(st, (ast.Assign, ast.Delete)) else [st.target]
+                for t in tg:
+                    if isinstance(t, ast.Subscript) and isinstance(t.value, ast.Name) \
+                            and (f.module.name, t.value.id) in mutable_globals \
+                            and t.value.id not in f.params and not any(
+                                isinstance(a, ast.Assign) and any(isinstance(x, ast.Name) and x.id == t.value.id
+                                                                  for x in a.targets) for a in ast.walk(f.node)):
+                        n += 1
+                        ctx.ob(rule, f"{f.fq}::module-container::{t.value.id}", False,
+                               what=f"module-level container `{t.value.id}` is written at run time: a hand-made "
+                                    "cache / registry whose content depends on what ran before (results of a "
+                                    "call then depend on the process history, e.g. the precision of the first "
+                                    "compilation)", loc=loc(f, st))
         cached = [d for d in f.node.decorator_list if "cache" in ast.unparse(d)]
         if cached:
             n += 1
